@@ -179,3 +179,44 @@ Proof.
     { destruct k; try discriminate; try reflexivity; cbn [norm_field]; destruct (firstn _ bs) as [|? [|? ?]]; reflexivity. }
     rewrite N. apply firstn_skipn.
 Qed.
+
+(* ---- unpack is total on records of the right size ---- *)
+Lemma take_be_enough n : forall bs, (n <= length bs)%nat -> exists u r, take_be n bs = Some (u, r) /\ length r = (length bs - n)%nat.
+Proof.
+  induction n as [|k IH]; intros bs L.
+  - exists 0, bs. split; [reflexivity|lia].
+  - destruct bs as [|b rest]; [cbn in L; lia|]. cbn [length] in L.
+    destruct (IH rest ltac:(lia)) as [u [r [T Lr]]]. rewrite take_be_S, T. eexists. eexists. split; [reflexivity|]. cbn [length]. lia.
+Qed.
+
+Lemma unpack_field_enough k bs : kind_ok k = true -> (field_size k <= length bs)%nat ->
+  exists ov rest, unpack_field k bs = Some (ov, rest) /\ length rest = (length bs - field_size k)%nat.
+Proof.
+  intros OK L. destruct k; cbn [unpack_field field_size] in *; try discriminate.
+  - destruct bs as [|x r]; [cbn in L; lia|]. eexists. eexists. split; [reflexivity|]. cbn. lia.
+  - destruct bs as [|x r]; [cbn in L; lia|]. eexists. eexists. split; [reflexivity|]. cbn. lia.
+  - destruct (take_be_enough n bs L) as [u [r [T Lr]]]. rewrite T. eexists. eexists. split; [reflexivity|]. exact Lr.
+  - destruct bs as [|x r]; [cbn in L; lia|]. eexists. eexists. split; [reflexivity|]. cbn. lia.
+  - assert (LE: (n <=? length bs)%nat = true) by (apply Nat.leb_le; exact L). rewrite LE.
+    eexists. eexists. split; [reflexivity|]. apply skipn_length.
+  - destruct (take_be_enough n bs L) as [u [r [T Lr]]]. rewrite T. eexists. eexists. split; [reflexivity|]. exact Lr.
+Qed.
+
+Lemma unpack_fields_enough fmt : forall bs, fmt_ok fmt = true -> (calcsize fmt <= length bs)%nat ->
+  exists vs rest, unpack_fields fmt bs = Some (vs, rest).
+Proof.
+  induction fmt as [|k r IH]; intros bs OK L.
+  - exists [], bs. reflexivity.
+  - cbn [fmt_ok forallb] in OK. apply andb_true_iff in OK. destruct OK as [OKk OKr].
+    change (calcsize (k :: r)) with (field_size k + calcsize r)%nat in L.
+    destruct (unpack_field_enough k bs OKk ltac:(lia)) as [ov [rest [U Lr]]].
+    destruct (IH rest OKr ltac:(lia)) as [vs [rest' R]].
+    cbn [unpack_fields]. rewrite U, R. eexists. eexists. reflexivity.
+Qed.
+
+Theorem sstruct_unpack_total fmt bs : fmt_ok fmt = true -> length bs = calcsize fmt ->
+  exists vals, unpack fmt bs = Ok vals.
+Proof.
+  intros OK L. unfold unpack. rewrite L, Nat.eqb_refl.
+  destruct (unpack_fields_enough fmt bs OK ltac:(lia)) as [vs [rest U]]. rewrite U. eexists. reflexivity.
+Qed.
